@@ -110,6 +110,7 @@ package archiver
 //@ func startWARCWriter
 //@   property C02,C03
 //@   requires [fresh-archiver] globalArchiver != nil && config.config != nil && globalArchiver.Client == nil && globalArchiver.ClientWithProxy == nil // Start builds the archiver struct just before
+//@   ensures [archiver-kept] globalArchiver == old(globalArchiver) && globalArchiver.cancel == old(globalArchiver.cancel)
 //@   ensures [as-started] @C03 clientsAsStarted() // C03: under any supported configuration (proxy or direct): which clients exist after start-up
 //@   attr assert-all NewWARCWritingHTTPClient
 //@   assert Build(*): [default-chain] @C02 arg0 != nil && len(arg0.hooks) == 2 && arg0.hooks[0] == cloudflare.ChallengePageHook && arg0.hooks[1] == warcdiscardstatus.WARCDiscardStatusHook // C02: discard hook chain built from cloudflare + warc-discard-status hooks
@@ -131,6 +132,15 @@ package archiver
 //@ func (field)archiver.cancel
 //@   trusted
 //@   modifies nothing
+
+// Start: what the archiver's own start-up leaves behind is what Stop relies on (sync.Once.Do is
+// modelled: the closure runs the first time only).
+//@ func Start
+//@   property C03
+//@   requires config.config != nil && ErrArchiverAlreadyInitialized != nil
+//@   ensures [built] @C03 result == nil ==> globalArchiver != nil
+//@   ensures [cancel] @C03 result == nil ==> globalArchiver != nil && globalArchiver.cancel != nil
+//@   ensures [as-started] @C03 result == nil ==> globalArchiver != nil && clientsAsStarted() // C03: under any supported configuration (proxy or direct): Stop's precondition is established by Start
 
 //@ func Stop
 //@   property C03
